@@ -21,7 +21,7 @@ EXPLANATION = (
     "C05.7 the x86_64 trampoline (aarch64 in the thorough tier) puts syscall number, flags, new stack, child-tid and TLS in the registers the ABI wants and the start function and its argument reach the indirect call. "
     "C05.1 also: the clone call is attempted once (no retry loop around it), so a refusal is returned. "
     "C05.6 also: no library code stores to the exit word after initialisation or wakes its waiters (only the kernel's clear-tid write releases a joiner). "
-    "C05.5 also: a thread resets its clear-tid address only on a way on which it frees the join block itself (otherwise a joiner is never released); C05.6 also: the stack pointer given to clone is (the result of the stack mmap itself) + (the length that mmap was given) minus alignment and the start arguments, so the child runs inside its mapping. NOT decided: that a created thread really starts/finishes (kernel), timing of join vs exit beyond these ordering obligations.")
+    "C05.5 also: a thread resets its clear-tid address only on a way on which it frees the join block itself (otherwise a joiner is never released); C05.6 also: the stack pointer given to clone is (the result of the stack mmap itself) + (the length that mmap was given) minus alignment and the start arguments, so the child runs inside its mapping. C05.4 also: nothing is read through the thread-local block after it was freed (the panic handler copies what it needs out first). NOT decided: that a created thread really starts/finishes (kernel), timing of join vs exit beyond these ordering obligations.")
 ASSUMPTIONS = ["CLONE_CHILD_CLEARTID: the kernel stores 0 to the child-tid word and futex-wakes it when the thread exits", "System V x86_64 / AAPCS64 calling conventions"]
 
 
